@@ -6,8 +6,13 @@
 //   by | <hex>              an arbitrary NUL-free byte string (cut at the first 00): totality, bounds, length rules;
 //                           the full battery when the independent decoder says it is well-formed
 //   nc <cp>.. -1 <cp>..     two well-formed texts: a.equalsNocase(b) == (a.toLowerCase() == b.toLowerCase())
-//   nb | <hexA> <hexB>      two arbitrary byte strings: equalsNocase both ways terminates in bounds (+ equivalence when both
-//                           are well-formed)
+//   nb | <hexA> <hexB>      two arbitrary byte strings (well- or ill-formed): equalsNocase both ways terminates in bounds and
+//                           a.equalsNocase(b) == (a.toLowerCase() == b.toLowerCase()).  The relation is asserted for EVERY pair:
+//                           the unchanged tree satisfies it on all 2.1 M pairs of the 1464 strings of length <= 3 over
+//                           {41 61 7A C2 C3 E0 F0 80 A0 C0 FF} (truncated sequences read as code 0 on both sides).  The
+//                           analogous relation with toUpperCase is NOT asserted: the unchanged tree breaks it on well-formed
+//                           text (204 pairs below 1443, e.g. "I".equalsNocase(U+0130) is true but the upper-cased forms differ;
+//                           "s" vs U+017F: not equal, same upper-cased form) and the property states it for lower case only.
 //   w16 <u> <u> ...         UTF-16 code units (reduced to 1..FFFF, one per 32-bit wchar_t): utf16toUtf8 / String(const wchar_t*) /
 //                           String(Array<wchar_t>) terminate in bounds; the standard UTF-8 when the units are well-formed UTF-16
 //   pf <n> <cp> <cp> ...    counted conversions with a BINDING count: the first n (reduced to 1..len) of the given scalars through
@@ -152,11 +157,9 @@ static void check_free_functions(const Info& in)
 // ---------------------------------------------------------------------------------------------
 // String methods
 
-static void check_nocase_pair(const String& a, const String& b, bool bothValid)
+static void check_nocase_pair(const String& a, const String& b)
 {
 	bool e1 = a.equalsNocase(b), e2 = b.equalsNocase(a);
-	if (!bothValid)
-		return;
 	String la = a.toLowerCase(), lb = b.toLowerCase();
 	bool l = la.length() == lb.length() && memcmp(*la, *lb, (size_t)la.length()) == 0;
 	VF_CHECK(e1 == l, vf::show(S(a)), ".equalsNocase(", vf::show(S(b)), ") = ", e1, " but lower-cased forms ", vf::show(S(la)), " and ",
@@ -221,13 +224,11 @@ static void check_string_methods(const Info& in, int pad)
 	}
 	{
 		std::unique_ptr<String> same(new String(t.c_str()));
-		bool e = str.equalsNocase(*same);
-		if (in.valid)
-			VF_CHECK(e, vf::show(t), ".equalsNocase(itself) is false");
+		VF_CHECK(str.equalsNocase(*same), vf::show(t), ".equalsNocase(itself) is false"); // (equal lower-cased forms trivially)
 		if (n > 0) { // neighbour 1: the last byte removed (cuts a trailing multi-byte sequence short)
 			std::string t1 = t.substr(0, n - 1);
 			std::unique_ptr<String> n1(new String(t1.c_str()));
-			check_nocase_pair(str, *n1, in.valid && ref::utf8_decode(t1));
+			check_nocase_pair(str, *n1);
 		}
 		std::string t2 = t; // neighbour 2: ASCII letters with their case flipped
 		for (auto& chr : t2)
@@ -235,7 +236,15 @@ static void check_string_methods(const Info& in, int pad)
 				chr ^= 0x20;
 		if (t2 != t) {
 			std::unique_ptr<String> n2(new String(t2.c_str()));
-			check_nocase_pair(str, *n2, in.valid);
+			check_nocase_pair(str, *n2);
+		}
+		// neighbour 3: a trailing lead byte (sequence cut by the end of the string) replaced by a lead byte of another width
+		if (n > 0 && (unsigned char)t[n - 1] >= 0xC0) {
+			std::string t3 = t;
+			unsigned char b = (unsigned char)t[n - 1];
+			t3[n - 1] = (char)(b >= 0xF0 ? 0xC2 : b >= 0xE0 ? 0xF1 : 0xE1);
+			std::unique_ptr<String> n3(new String(t3.c_str()));
+			check_nocase_pair(str, *n3);
 		}
 	}
 	{ // wide view: the UTF-16 scratch area inside the String's own buffer
@@ -300,7 +309,7 @@ static void check_valid_extras(const Info& in)
 	}
 }
 
-static void check_all(const std::string& bytes)
+static void check_all(const std::string& bytes, bool heapPlacement = true)
 {
 	Info in(bytes);
 	check_free_functions(in);
@@ -309,7 +318,7 @@ static void check_all(const std::string& bytes)
 	// the inline-flush placement adds nothing on well-formed input (same code, no truncated sequence to run over)
 	if (n < 15 && !in.valid)
 		check_string_methods(in, 15 - n);
-	if (n < 19)
+	if (n < 19 && heapPlacement)
 		check_string_methods(in, 19 - n);
 	if (in.valid)
 		check_valid_extras(in);
@@ -326,7 +335,14 @@ static void op_sc(const vf::Op& o)
 	VF_CHECK(f.count() == 1, "fromCode(", cp, ").count() = ", f.count());
 	Array<int> ch = f.chars();
 	VF_CHECK(ch.length() == 1 && (uint32_t)ch[0] == cp, "fromCode(", cp, ").chars()");
-	check_all(s);
+	// the String methods are run on the bare scalar for every scalar; the second placement (ASCII-prefixed into an exact
+	// 20-byte heap buffer; same library code, other allocation geometry) for all 1- and 2-byte scalars, every 4th of the
+	// others and the neighbourhoods of the width / surrogate / range boundaries
+	bool heap = cp < 0x800 || cp % 4 == 0;
+	for (uint32_t b : {0x800u, 0xD7FFu, 0xE000u, 0xFFFFu, 0x10000u, 0x10FFFFu})
+		if (cp + 2 >= b && cp <= b + 2)
+			heap = true;
+	check_all(s, heap);
 }
 
 static std::vector<uint32_t> cps_of(const std::vector<long long>& a, size_t from, size_t to)
@@ -345,27 +361,28 @@ static void op_nc(const vf::Op& o, bool padded)
 		sep++;
 	std::string a = ref::utf8(cps_of(o.a, 0, sep)), b = ref::utf8(cps_of(o.a, sep + 1, o.a.size()));
 	std::unique_ptr<String> A(new String(a.c_str())), B(new String(b.c_str()));
-	check_nocase_pair(*A, *B, true);
+	check_nocase_pair(*A, *B);
 	// the same pair behind a common prefix that moves both into exact heap buffers
 	if (padded && (a.size() < 19 || b.size() < 19)) {
 		std::string pa = std::string(a.size() < 19 ? 19 - a.size() : 0, 'Q') + a, pb = std::string(a.size() < 19 ? 19 - a.size() : 0, 'q') + b;
 		std::unique_ptr<String> PA(new String(pa.c_str())), PB(new String(pb.c_str()));
-		check_nocase_pair(*PA, *PB, true);
+		check_nocase_pair(*PA, *PB);
 	}
 }
 
-static void op_nb(const vf::Op& o)
+static void op_nb(const vf::Op& o, bool padded)
 {
 	std::string a = cut_nul(o.str(0)), b = cut_nul(o.str(1));
-	bool valid = ref::utf8_decode(a) && ref::utf8_decode(b);
 	for (int pad : {0, 15, 19}) {
-		std::string pa = a, pb = b;
-		if (pad && (int)pa.size() < pad)
-			pa = std::string(pad - pa.size(), 'a') + pa;
-		if (pad && (int)pb.size() < pad)
-			pb = std::string(pad - pb.size(), 'A') + pb;
+		if (pad && !padded)
+			break;
+		// the same number of prefix characters on both sides (the pair stays aligned): the shorter one reaches `pad` bytes
+		int shorter = (int)std::min(a.size(), b.size()), k = pad > shorter ? pad - shorter : 0;
+		if (pad && k == 0)
+			continue;
+		std::string pa = std::string((size_t)k, 'a') + a, pb = std::string((size_t)k, 'A') + b;
 		std::unique_ptr<String> A(new String(pa.c_str())), B(new String(pb.c_str()));
-		check_nocase_pair(*A, *B, valid);
+		check_nocase_pair(*A, *B);
 	}
 }
 
@@ -508,7 +525,7 @@ void vf_run_case(const std::string& part, const vf::Case& c)
 		else if (o.name == "nc")
 			op_nc(o, part != "nocase_pairs");
 		else if (o.name == "nb")
-			op_nb(o);
+			op_nb(o, part != "nocase_bytes_pairs");
 		else if (o.name == "w16")
 			op_w16(o);
 		else if (o.name == "pf")
@@ -941,16 +958,54 @@ void vf_search(const vf::Args& a)
 		Enum e("nocase_pairs", "nc");
 		uint64_t idx = 0, eq = 0;
 		for (long long x = 1; x < 1443; x++)
-			for (long long y = 1; y < 1443; y++)
+			for (long long y = x; y < 1443; y++) // unordered: the check compares both directions
 				if (idx++ % W == me) {
 					if (!e.ints({x, -1, y}))
 						return;
 				}
 		(void)eq;
 		vf::stats().nt_counted(e.ran);
-		vf::stats().part("nocase_pairs.all_pairs_of_code_points_below_1443", e.ran, true);
+		vf::stats().part("nocase_pairs.all_unordered_pairs_of_code_points_below_1443_both_directions", e.ran, true);
 	}();
 	lap();
+
+	// (4b) the same relation on ALL unordered pairs of the byte strings of length <= 3 over a small alphabet with ASCII letters,
+	// 2/3/4-byte leads, continuation bytes (C3 80 / C3 A0 is a case pair; everything else is mostly ill-formed)
+	[&]() {
+		static const unsigned char AL[] = {0x41, 0x61, 0x7A, 0xC2, 0xC3, 0xE0, 0xF0, 0x80, 0xA0};
+		const uint64_t A = sizeof AL;
+		std::vector<std::string> strs(1, std::string());
+		for (int len = 1; len <= 3; len++) {
+			uint64_t total = 1;
+			for (int i = 0; i < len; i++)
+				total *= A;
+			for (uint64_t k = 0; k < total; k++) {
+				std::string s;
+				uint64_t v = k;
+				for (int i = 0; i < len; i++) {
+					s += (char)AL[v % A];
+					v /= A;
+				}
+				strs.push_back(s);
+			}
+		}
+		Enum e("nocase_bytes_pairs", "nb");
+		uint64_t idx = 0, nt = 0;
+		for (size_t i = 0; i < strs.size(); i++)
+			for (size_t j = i; j < strs.size(); j++)
+				if (idx++ % W == me) {
+					e.c.ops[0].s = {strs[i], strs[j]};
+					if (!vf::runner().run(e.part, e.c))
+						return;
+					e.ran++;
+					bool ill = !ref::utf8_decode(strs[i]) || !ref::utf8_decode(strs[j]);
+					e.classes[ill ? "pair_with_illformed_string" : "pair_wellformed"]++;
+					if (ill && i != j)
+						nt++;
+				}
+		vf::stats().nt_counted(nt);
+		vf::stats().part("nocase_bytes_pairs.all_unordered_pairs_of_820_strings_len<=3_over_9_bytes", e.ran, true);
+	}();
 
 	// (5) rapidcheck: well-formed texts of mixed widths
 	[&]() {
@@ -1062,17 +1117,71 @@ void vf_search(const vf::Args& a)
 			if (e && x != y && sep == 4)
 				vf::stats().sample("nocase: " + vf::serialize(c), 12);
 		});
-		// ill-formed operands
-		auto g2 = gen::map(gen::pair(gen_ill(40), gen_ill(40)), [](const std::pair<std::string, std::string>& p) {
+		// ill-formed operands: unrelated pairs, and RELATED pairs (same pieces, ASCII case flipped, one piece replaced / dropped,
+		// different ends: nothing / a lead byte cut by the end of the string / a stray continuation / an overlong NUL)
+		auto tails = std::vector<std::string>{"", "", "\xC2", "\xDF", "\xE0", "\xE2\x82", "\xEF", "\xF0", "\xF0\x9F", "\xF4\x8F\xBF", "\x80", "\xC3", "\xC0\x80", "\xF8", "a", "Z"};
+		auto unrelated = gen::map(gen::pair(gen_ill(40), gen_ill(40)), [](const std::pair<std::string, std::string>& p) {
 			vf::Op o("nb");
 			o.s = {p.first, p.second};
 			vf::Case c;
 			c.ops.push_back(o);
 			return c;
 		});
-		vf::check_cases("nocase_ill", a.n(4000, 10000), 100, g2, [](const vf::Case& c) {
-			if (!ref::utf8_decode(cut_nul(c.ops[0].str(0))) || !ref::utf8_decode(cut_nul(c.ops[0].str(1))))
+		auto asciiPiece = gen::map(gen::container<std::vector<int>>(vf::irange<int>(0x20, 0x7E)), [](const std::vector<int>& v) {
+			std::string s;
+			for (size_t i = 0; i < v.size() && i < 6; i++)
+				s += (char)v[i];
+			return s;
+		});
+		auto related = gen::map(gen::tuple(gen::container<std::vector<std::string>>(gen::oneOf(asciiPiece, asciiPiece, gen_piece())), gen::elementOf(tails), gen::elementOf(tails), vf::irange<int>(0, 7),
+		                                   vf::irange<int>(0, 1000), gen_piece()),
+		                        [](const std::tuple<std::vector<std::string>, std::string, std::string, int, int, std::string>& t) {
+			                        std::vector<std::string> pa = std::get<0>(t);
+			                        if (pa.size() > 8)
+				                        pa.resize(8);
+			                        std::vector<std::string> pb = pa;
+			                        int mode = std::get<3>(t);
+			                        size_t at = pb.empty() ? 0 : (size_t)std::get<4>(t) % pb.size();
+			                        if (mode == 5 && !pb.empty())
+				                        pb[at] = std::get<5>(t); // one piece replaced
+			                        if (mode == 6 && !pb.empty())
+				                        pb.erase(pb.begin() + at); // one piece dropped
+			                        std::string x, y;
+			                        for (auto& s : pa)
+				                        x += s;
+			                        for (auto& s : pb)
+				                        y += s;
+			                        if (mode & 1) // ASCII case flipped on one side
+				                        for (auto& ch : y)
+					                        if (isalpha((unsigned char)ch) && (unsigned char)ch < 0x80)
+						                        ch ^= 0x20;
+			                        vf::Op o("nb");
+			                        o.s = {x + std::get<1>(t), y + std::get<2>(t)};
+			                        vf::Case c;
+			                        c.ops.push_back(o);
+			                        return c;
+		                        });
+		auto g2 = gen::mapcat(vf::irange<int>(0, 3), [=](int k) -> Gen<vf::Case> { return k == 0 ? Gen<vf::Case>(unrelated) : Gen<vf::Case>(related); });
+		vf::check_cases("nocase_ill", a.n(6000, 16000), 40, g2, [](const vf::Case& c) {
+			std::string x = cut_nul(c.ops[0].str(0)), y = cut_nul(c.ops[0].str(1));
+			bool vx = ref::utf8_decode(x), vy = ref::utf8_decode(y);
+			if ((!vx || !vy) && x != y)
 				vf::stats().nt(vf::fnv(vf::serialize(c)));
+			bool e = String(x.c_str()).equalsNocase(String(y.c_str()));
+			vf::stats().cls(vx && vy ? "nocase_ill.both_wellformed" : vx || vy ? "nocase_ill.one_illformed" : "nocase_ill.both_illformed");
+			vf::stats().cls(x == y ? "nocase_ill.identical" : e ? "nocase_ill.equal_up_to_case/decoding" : "nocase_ill.different");
+			auto bare = [](const std::string& s) { // ASCII* + one trailing lead byte
+				if (s.empty() || (unsigned char)s.back() < 0xC0)
+					return false;
+				for (size_t i = 0; i + 1 < s.size(); i++)
+					if ((unsigned char)s[i] >= 0x80)
+						return false;
+				return true;
+			};
+			if (bare(x) || bare(y))
+				vf::stats().cls(e && x != y ? "nocase_ill.ascii+bare_trailing_lead.equal" : "nocase_ill.ascii+bare_trailing_lead.other");
+			if (e && x != y && (!vx || !vy) && x.size() <= 6)
+				vf::stats().sample("nocase_ill: nb | " + vf::hexs(x) + " " + vf::hexs(y), 14);
 		});
 	}();
 	lap();
